@@ -354,6 +354,15 @@ def ts_property(run, tier, seed, pid, describe=''):
             found = True
             run.violation(dict(steps=specs[i][1], gmeta=specs[i][2], mode=specs[i][0], why=why, result_vector=dict(zip(COLS, out[i])),
                                replay_cmd=f'./check {pid} --replay <this file>'), note=why)
+    if pid == 'C14' and not found:
+        # adjacency_matrices is part of the property ("that template set written as one matrix per source lag"); the model's
+        # matrices are proved to be exactly that (adj_matrices_spec), so on a consistent template set a differing answer is a failing input
+        for i, r in enumerate(out):
+            if r[2] == 0 and r[7] != 2 and not found:
+                found = True
+                why = 'adjacency_matrices is not the template set written as one matrix per source lag'
+                run.violation(dict(steps=specs[i][1], gmeta=specs[i][2], mode=specs[i][0], why=why, result_vector=dict(zip(COLS, out[i])),
+                                   replay_cmd=f'./check {pid} --replay <this file>'), note=why)
     if diverging and not found:
         i = diverging[0][0]
         run.coverage['first_divergence'] = dict(steps=specs[i][1], gmeta=specs[i][2], column=diverging[0][1], result_vector=dict(zip(COLS, out[i])))
